@@ -71,6 +71,37 @@ CLASSES = [
           assume={'not self.__range_is_field': True, 'self.__domain_is_field': False})),
     # proximal_l2(space, lam, g=None)(sigma) in the branch sigma*lam >= ||x||*(1+eps)  (step >= 1):
     # the scalar prelude computing `step` is skipped, the branch is fixed by `assume`
+    # proximal factories (classes defined inside functions); closure scalars lam / lower / upper become
+    # parameters after self.sigma, the closure element g becomes an owned element
+    ('ProximalL1', PROXIMAL_PY, 'proximal_l1.ProximalL1',
+     dict(pars=['sigma'], cpars=['lam'], assume={'x is out': False, 'g is not None': False})),
+    ('ProximalL1_g', PROXIMAL_PY, 'proximal_l1.ProximalL1',
+     dict(pars=['sigma'], cpars=['lam'], cvecs=['g'], assume={'x is out': False, 'g is not None': True})),
+    ('ProximalConvexConjL1', PROXIMAL_PY, 'proximal_convex_conj_l1.ProximalConvexConjL1',
+     dict(pars=['sigma'], cpars=['lam'], assume={'x is out': False, 'g is not None': False})),
+    ('ProximalConvexConjL1_g', PROXIMAL_PY, 'proximal_convex_conj_l1.ProximalConvexConjL1',
+     dict(pars=['sigma'], cpars=['lam'], cvecs=['g'], assume={'x is out': False, 'g is not None': True})),
+    ('ProximalL2Squared', PROXIMAL_PY, 'proximal_l2_squared.ProximalL2Squared',
+     dict(pars=['sigma'], cpars=['lam'], assume={'np.isscalar(sig)': True, 'g is None': True})),
+    ('ProximalL2Squared_g', PROXIMAL_PY, 'proximal_l2_squared.ProximalL2Squared',
+     dict(pars=['sigma'], cpars=['lam'], cvecs=['g'], assume={'np.isscalar(sig)': True, 'g is None': False})),
+    ('ProximalConvexConjL2Squared', PROXIMAL_PY, 'proximal_convex_conj_l2_squared.ProximalConvexConjL2Squared',
+     dict(pars=['sigma'], cpars=['lam'], assume={'np.isscalar(sig)': True, 'g is None': True})),
+    ('ProximalConvexConjL2Squared_g', PROXIMAL_PY, 'proximal_convex_conj_l2_squared.ProximalConvexConjL2Squared',
+     dict(pars=['sigma'], cpars=['lam'], cvecs=['g'], assume={'np.isscalar(sig)': True, 'g is None': False})),
+    ('ProxBox_both', PROXIMAL_PY, 'proximal_box_constraint.ProxOpBoxConstraint',
+     dict(cpars=['lower', 'upper'],
+          assume={'lower is not None and upper is None': False, 'lower is None and upper is not None': False,
+                  'lower is not None and upper is not None': True})),
+    ('ProxBox_lower', PROXIMAL_PY, 'proximal_box_constraint.ProxOpBoxConstraint',
+     dict(cpars=['lower', 'upper'], assume={'lower is not None and upper is None': True})),
+    ('ProxBox_upper', PROXIMAL_PY, 'proximal_box_constraint.ProxOpBoxConstraint',
+     dict(cpars=['lower', 'upper'],
+          assume={'lower is not None and upper is None': False, 'lower is None and upper is not None': True})),
+    ('ProxBox_none', PROXIMAL_PY, 'proximal_box_constraint.ProxOpBoxConstraint',
+     dict(cpars=['lower', 'upper'],
+          assume={'lower is not None and upper is None': False, 'lower is None and upper is not None': False,
+                  'lower is not None and upper is not None': False})),
     ('ProximalL2_bigstep', PROXIMAL_PY, 'proximal_l2.ProximalL2',
      dict(assume={'g is None': True, 'step < 1.0': False},
           skip_scalar=['dtype', 'eps', 'x_norm', 'step'])),
@@ -87,6 +118,9 @@ class Ctx(object):
         self.owns = cfg.get('owns', [])
         self.assume = cfg.get('assume', {})
         self.skip_scalar = cfg.get('skip_scalar', [])
+        self.cpars = cfg.get('cpars', [])     # scalars captured from the factory's closure (lam, lower ...)
+        self.cvecs = cfg.get('cvecs', [])     # elements captured from the closure (g)
+        self.salias = {}                      # scalar local = scalar expression (sig = self.sigma)
         self.locals = {}      # element-valued local name -> tmp index
         self.slocals = {}     # scalar-valued local name -> index
 
@@ -186,6 +220,8 @@ def ref(cx, node, bind=False):
             return 'ROut'
         if node.id in cx.locals:
             return '(RTmp %d)' % cx.locals[node.id]
+        if node.id in cx.cvecs and not bind:
+            return '(RVec %d)' % (len(cx.vecs) + cx.cvecs.index(node.id))
         if bind:
             cx.locals[node.id] = len(cx.locals)
             return '(RTmp %d)' % cx.locals[node.id]
@@ -201,8 +237,12 @@ def is_scalar(cx, node):
         return True
     if self_attr(node) in cx.pars:
         return True
-    if isinstance(node, ast.Name) and node.id in cx.slocals:
+    if isinstance(node, ast.Name) and (node.id in cx.slocals or node.id in cx.cpars or node.id in cx.salias):
         return True
+    if isinstance(node, ast.BinOp) and isinstance(node.op, (ast.Add, ast.Sub, ast.Mult, ast.Div)):
+        return is_scalar(cx, node.left) and is_scalar(cx, node.right)
+    if isinstance(node, ast.UnaryOp) and isinstance(node.op, ast.USub):
+        return is_scalar(cx, node.operand)
     return False
 
 
@@ -214,6 +254,17 @@ def scal(cx, node):
         return '(SPar %d)' % cx.pars.index(a)
     if isinstance(node, ast.Name) and node.id in cx.slocals:
         return '(SVar %d)' % cx.slocals[node.id]
+    if isinstance(node, ast.Name) and node.id in cx.salias:
+        return cx.salias[node.id]
+    if isinstance(node, ast.Name) and node.id in cx.cpars:
+        return '(SPar %d)' % (len(cx.pars) + cx.cpars.index(node.id))
+    if isinstance(node, ast.BinOp) and isinstance(node.op, (ast.Add, ast.Sub, ast.Mult, ast.Div)):
+        c = {ast.Add: 'SAdd', ast.Sub: 'SSub', ast.Mult: 'SMul', ast.Div: 'SDiv'}[type(node.op)]
+        return '(%s %s %s)' % (c, scal(cx, node.left), scal(cx, node.right))
+    if isinstance(node, ast.UnaryOp) and isinstance(node.op, ast.USub):
+        if isinstance(node.operand, ast.Constant):
+            return '(SLit %s)' % qlit(-node.operand.value)
+        return '(SNeg %s)' % scal(cx, node.operand)
     cx.fail(node, 'not a scalar')
 
 
@@ -235,6 +286,8 @@ def expr(cx, node):
         return '(XCall %d %s)' % (k, expr(cx, call.args[0]))
     if isinstance(node, ast.BinOp) and isinstance(node.op, ast.Add):
         return '(XAdd %s %s)' % (expr(cx, node.left), expr(cx, node.right))
+    if isinstance(node, ast.BinOp) and isinstance(node.op, ast.Sub):
+        return '(XSub %s %s)' % (expr(cx, node.left), expr(cx, node.right))
     if isinstance(node, ast.BinOp) and isinstance(node.op, ast.Mult):
         if is_scalar(cx, node.left):
             return '(XScal %s %s)' % (scal(cx, node.left), expr(cx, node.right))
@@ -249,6 +302,9 @@ def expr(cx, node):
             return '(XZero %s)' % space_sel(cx, node.func.value)
         if meth == 'copy' and not node.args and not node.keywords:
             return '(XCopy %s)' % expr(cx, node.func.value)
+        if (meth == 'absolute' and not node.args and not node.keywords and isinstance(node.func.value, ast.Attribute)
+                and node.func.value.attr == 'ufuncs'):
+            return '(XAbs %s)' % expr(cx, node.func.value.value)
         if (meth == 'element' and len(node.args) == 1 and not node.keywords
                 and isinstance(node.args[0], ast.Call) and isinstance(node.args[0].func, ast.Name)
                 and node.args[0].func.id == 'copy' and len(node.args[0].args) == 1
@@ -289,6 +345,9 @@ def stmt(cx, s):
         if len(s.targets) != 1 or not isinstance(s.targets[0], ast.Name):
             cx.fail(s, 'assignment target outside the grammar')
         name = s.targets[0].id
+        if is_scalar(cx, s.value) and name not in cx.locals and name not in ('x', 'out'):
+            cx.salias[name] = scal(cx, s.value)        # sig = self.sigma
+            return []
         kc = kid_call(cx, s.value)
         if kc is not None and cx.kids[kc[0]] in cx.fkids:
             if len(kc[1].args) != 1 or kc[1].keywords:
@@ -307,6 +366,8 @@ def stmt(cx, s):
             if is_scalar(cx, s.value):
                 return ['TIScal %s %s' % (o, scal(cx, s.value))]
             return ['TIMul %s %s' % (o, ref(cx, s.value))]
+        if isinstance(s.op, ast.Div) and is_scalar(cx, s.value):
+            return ['TIDivS %s %s' % (o, scal(cx, s.value))]
         cx.fail(s, 'augmented assignment outside the grammar')
     if isinstance(s, ast.Expr) and isinstance(s.value, ast.Call):
         call = s.value
@@ -330,6 +391,18 @@ def stmt(cx, s):
                 return ['TAssign %s %s' % (ref(cx, tgt), expr(cx, call.args[0]))]
             if meth == 'set_zero' and not call.args and not call.keywords:
                 return ['TSetZero %s' % ref(cx, tgt)]
+            if (meth == 'divide' and len(call.args) == 1 and len(call.keywords) == 1
+                    and call.keywords[0].arg == 'out'):
+                src = tgt.value if (isinstance(tgt, ast.Attribute) and tgt.attr == 'ufuncs') else tgt
+                return ['TDivide %s %s %s' % (ref(cx, src), ref(cx, call.args[0]), ref(cx, call.keywords[0].value))]
+            if isinstance(tgt, ast.Attribute) and tgt.attr == 'ufuncs' and len(call.keywords) == 1 \
+                    and call.keywords[0].arg == 'out':
+                src, o = ref(cx, tgt.value), ref(cx, call.keywords[0].value)
+                if meth == 'absolute' and not call.args:
+                    return ['TUAbs %s %s' % (src, o)]
+                if meth in ('maximum', 'minimum') and len(call.args) == 1 and is_scalar(cx, call.args[0]):
+                    return ['%s %s %s %s' % ('TUMaxS' if meth == 'maximum' else 'TUMinS', src,
+                                             scal(cx, call.args[0]), o)]
     cx.fail(s, 'statement outside the grammar')
 
 
@@ -341,7 +414,7 @@ def ipcall(cx, kc):
 
 
 def body(cx, stmts):
-    cx.locals, cx.slocals = {}, {}
+    cx.locals, cx.slocals, cx.salias = {}, {}, {}
     sts, ret = [], 'RetNone'
     for i, s in enumerate(stmts):
         r = stmt(cx, s)
